@@ -33,6 +33,11 @@ type RearmSpec struct {
 	CancelDNs   int64 `json:"cancel_d_ns"`  //
 	Recancel    bool  `json:"recancel"`     // cancel-head variant: cancel the same future a second time after the next Call
 	SampleEvery int   `json:"sample_every"` // full record of every k-th iteration
+	// ExitRaceUs > 0 ("arrive while the last worker gives up"): no distant future, the idle
+	// timeout is ExitRaceUs and every Call is issued 1.5 .. 3.5 idle timeouts after the
+	// previous callback started, i.e. around the moment at which the only worker has slept
+	// twice without work and exits
+	ExitRaceUs int64 `json:"exit_race_us,omitempty"`
 }
 
 // Stall is a future that was due and did not start within StallNs
@@ -186,6 +191,13 @@ func (r *rearmRun) caller(g int, sp RearmSpec, wg *sync.WaitGroup, start chan st
 		if sp.SampleEvery > 0 && i%sp.SampleEvery == 0 {
 			ft, _, _, _ := timeout.VerifFuture(h)
 			r.record(Fut{DNs: d, NonNil: true, Created: true, Call0: c0, Call1: c1, Fire: int64(ft.Sub(r.base)), Starts: []int64{s}}, h)
+		}
+		if sp.ExitRaceUs > 0 {
+			// 1.5 .. 3.5 idle timeouts after the start of the callback
+			jit := (uint64(i)*2654435761 + uint64(g)*40503) % 2000
+			until := s + sp.ExitRaceUs*(1500+int64(jit))
+			for r.now() < until {
+			}
 		}
 		// vary the gap between the start of the callback and the next Call
 		if sp.GapMod > 1 {
